@@ -252,4 +252,117 @@ theorem prsn_roundtrip_list (pr prsn : List Rat) (h : ∀ p ∈ pr.zip prsn, p.1
 example : map2 (fun a b => (getPrsnratio a b).map (getPrsn a)) [8, 3] [2, 0] = [.ok 2, .ok 0] :=
   prsn_roundtrip_list [8, 3] [2, 0] (by decide +kernel)
 
+/-! ### shape and storage order (element-wise: index `i` of the result is the kernel at index `i` of the inputs) -/
+
+/-- **Shape is preserved**: equally shaped (flattened) inputs give a result of that shape. -/
+theorem map3_length {β} (f : Rat → Rat → Rat → β) : ∀ (a b c : List Rat), a.length = b.length → b.length = c.length →
+    (map3 f a b c).length = a.length
+  | [], _, _, _, _ => by simp [map3]
+  | _ :: _, [], _, h, _ => by simp at h
+  | _ :: _, _ :: _, [], _, h => by simp at h
+  | x :: a, y :: b, z :: c, h1, h2 => by
+    simp only [map3, List.length_cons] at *
+    rw [map3_length f a b c (by omega) (by omega)]
+
+theorem map2_length {β} (f : Rat → Rat → β) : ∀ (a b : List Rat), a.length = b.length → (map2 f a b).length = a.length
+  | [], _, _ => by simp [map2]
+  | _ :: _, [], h => by simp at h
+  | x :: a, y :: b, h => by
+    simp only [map2, List.length_cons] at *
+    rw [map2_length f a b (by omega)]
+
+example : (map3 getTasmin [1, 2, 3] [4, 5, 6] [0, 1, 1 / 2]).length = 3 := map3_length _ _ _ _ rfl rfl
+
+/-- **Element-wise**: entry `i` of the result is the scalar kernel of the entries `i` of the inputs, nothing else. -/
+theorem map3_getD {β} (f : Rat → Rat → Rat → β) (da db dc : Rat) : ∀ (a b c : List Rat), a.length = b.length → b.length = c.length →
+    ∀ i, (map3 f a b c).getD i (f da db dc) = f (a.getD i da) (b.getD i db) (c.getD i dc)
+  | [], [], [], _, _, i => by simp [map3]
+  | [], _ :: _, _, h, _, _ => by simp at h
+  | _ :: _, [], _, h, _, _ => by simp at h
+  | [], [], _ :: _, _, h, _ => by simp at h
+  | _ :: _, _ :: _, [], _, h, _ => by simp at h
+  | x :: a, y :: b, z :: c, h1, h2, i => by
+    cases i with
+    | zero => simp [map3]
+    | succ n =>
+      simp only [map3, List.getD_cons_succ]
+      exact map3_getD f da db dc a b c (by simpa using h1) (by simpa using h2) n
+
+theorem map2_getD {β} (f : Rat → Rat → β) (da db : Rat) : ∀ (a b : List Rat), a.length = b.length →
+    ∀ i, (map2 f a b).getD i (f da db) = f (a.getD i da) (b.getD i db)
+  | [], [], _, i => by simp [map2]
+  | [], _ :: _, h, _ => by simp at h
+  | _ :: _, [], h, _ => by simp at h
+  | x :: a, y :: b, h, i => by
+    cases i with
+    | zero => simp [map2]
+    | succ n =>
+      simp only [map2, List.getD_cons_succ]
+      exact map2_getD f da db a b (by simpa using h) n
+
+/-- **Storage order does not matter**: converting the arrays visited in any order `idx` (a transposed, Fortran-ordered,
+    strided or reversed view, any permutation or selection of the elements) is the conversion visited in that order. -/
+theorem storage_order3 {β} (f : Rat → Rat → Rat → β) (a b c : List Rat) (da db dc : Rat)
+    (h1 : a.length = b.length) (h2 : b.length = c.length) (idx : List Nat) :
+    map3 f (pick a idx da) (pick b idx db) (pick c idx dc) = pick (map3 f a b c) idx (f da db dc) := by
+  induction idx with
+  | nil => simp [pick, map3]
+  | cons i t ih =>
+    simp only [pick, List.map_cons, map3] at ih ⊢
+    rw [ih, map3_getD f da db dc a b c h1 h2 i]
+
+theorem storage_order2 {β} (f : Rat → Rat → β) (a b : List Rat) (da db : Rat) (h : a.length = b.length) (idx : List Nat) :
+    map2 f (pick a idx da) (pick b idx db) = pick (map2 f a b) idx (f da db) := by
+  induction idx with
+  | nil => simp [pick, map2]
+  | cons i t ih =>
+    simp only [pick, List.map_cons, map2] at ih ⊢
+    rw [ih, map2_getD f da db a b h i]
+
+example : map3 getTasmin (pick [10, 20, 30] [2, 0, 1] 0) (pick [1, 2, 3] [2, 0, 1] 0) (pick [1, 1 / 2, 0] [2, 0, 1] 0) =
+    pick (map3 getTasmin [10, 20, 30] [1, 2, 3] [1, 1 / 2, 0]) [2, 0, 1] (getTasmin 0 0 0) :=
+  storage_order3 getTasmin [10, 20, 30] [1, 2, 3] [1, 1 / 2, 0] 0 0 0 rfl rfl [2, 0, 1]
+
+/-! ### sequences of calls and in-place modifications on the same arrays -/
+
+theorem envAfter_append (e : Env) (p q : List Step) : envAfter e (p ++ q) = envAfter (envAfter e p) q := by
+  induction p generalizing e with
+  | nil => rfl
+  | cons st t ih => cases st <;> simp only [List.cons_append, envAfter, ih]
+
+theorem run_append (e : Env) (p q : List Step) : run e (p ++ q) = run e p ++ run (envAfter e p) q := by
+  induction p generalizing e with
+  | nil => rfl
+  | cons st t ih => cases st <;> simp only [List.cons_append, run, envAfter, ih]
+
+/-- **Every call is a fresh computation**: whatever was called before on the same arrays and however they were modified
+    in place, a call returns the formulas of the *current* content of its arguments. -/
+theorem call_fresh (e : Env) (pre : List Step) (f : Fn) :
+    run e (pre ++ [.call f]) = run e pre ++ [f.eval (envAfter e pre)] := by
+  rw [run_append]; rfl
+
+/-- **Calls change nothing**: the content of the arrays after a script is the content after its modifications alone. -/
+theorem calls_do_not_change_arrays (e : Env) (script : List Step) :
+    envAfter e script = envAfter e (script.filter Step.isMod) := by
+  induction script generalizing e with
+  | nil => rfl
+  | cons st t ih =>
+    cases st with
+    | call f => simp only [envAfter, List.filter_cons, Step.isMod, Bool.false_eq_true, if_false]; exact ih e
+    | mod m => simp only [envAfter, List.filter_cons, Step.isMod, if_true]; exact ih _
+
+/-- a call repeated gives the same result, and the paired functions are the single ones side by side, at any point of a script -/
+theorem call_repeatable (e : Env) (pre : List Step) (f : Fn) :
+    run e (pre ++ [.call f, .call f]) = run e pre ++ [f.eval (envAfter e pre), f.eval (envAfter e pre)] := by
+  rw [run_append]; rfl
+
+theorem paired_eval (e : Env) :
+    Fn.rangeskew.eval e = Fn.tasrange.eval e ++ Fn.tasskew.eval e ∧ Fn.minmax.eval e = Fn.tasmin.eval e ++ Fn.tasmax.eval e :=
+  ⟨rfl, rfl⟩
+
+/-- the stale-cache scenario: `get_tasmin`, then a unit change in place, then `get_tasmax` — the second call sees the shifted `tas` -/
+example :
+    run ⟨[280], [275], [290], [15], [1 / 3], [2], [1], [1 / 2]⟩ [.call .tasmin, .mod (.shiftT 273), .call .tasmax] =
+      [[[.ok 275]], [[.ok 17]]] := by decide +kernel
+
 end Props.C18
